@@ -305,3 +305,101 @@ func genAlloc(r *rand.Rand, id string) *Case {
 }
 
 func init() { generators["alloc"] = genAlloc }
+
+// ---- C11: TLS upgrade ------------------------------------------------------------------------
+
+var sslRequestPacket = startup(80877103, nil, false)
+
+// genTLS: certificates configured; the client sends an SSLRequest — alone, with plaintext stuffed
+// behind it in the same segment, or with plaintext arriving later instead of a ClientHello —
+// performs a real TLS handshake and runs a session (any kind: auth, simple/extended query, COPY,
+// CancelRequest, a second SSLRequest, truncated input) inside it.
+func genTLS(r *rand.Rand, id string) *Case {
+	c := baseCase(id, "tls")
+	c.TLS = 2
+	c.Extra["tlsrun"] = "1"
+	if r.Intn(2) == 0 {
+		c.Extra["tlsver"] = "12"
+	}
+	limits := []int{0, 0, 64, 256, 4096}
+	c.L = limits[r.Intn(len(limits))]
+	genL := c.L
+	if genL <= 0 || genL > 300 {
+		genL = 300
+	}
+	// the session that runs inside TLS
+	var tin []byte
+	user := pick(r, []string{"alice", "bob", ""})
+	tin = append(tin, startup(196608, [][2]string{{"user", user}}, true)...)
+	if r.Intn(4) == 0 {
+		c.Auth = true
+		tin = append(tin, msgPassword(pick(r, []string{"ok", "okay", "bad", "fail"}))...)
+	}
+	if r.Intn(4) == 0 {
+		c.MW = pick(r, []string{"o", "oo", "of"})
+	}
+	c.Term = r.Intn(3)
+	if r.Intn(4) == 0 {
+		c.Ver = []byte("14.2")
+	}
+	tin = append(tin, flatten(genSessionMsgs(r, r.Intn(10), genL, true))...)
+	stuffing := append(startup(196608, [][2]string{{"user", "mallory"}}, true), msgQuery("t//r:t6869;c:"+hxs("SELECT 1")+"/ok/mallory")...)
+	// what arrives together with the SSLRequest is dropped with the plaintext reader's buffer;
+	// the buffer holds max(limit, 16) bytes (65536 by default)
+	room := 65536
+	if c.L > 0 {
+		room = c.L
+	}
+	room -= len(sslRequestPacket)
+	if r.Intn(2) == 0 || len(stuffing) > room {
+		n := 1 + r.Intn(40)
+		if n > room {
+			n = room
+		}
+		stuffing = randBytes(r, n, false)
+	}
+	c.In = append([]byte(nil), sslRequestPacket...)
+	switch k := r.Intn(16); {
+	case k < 7:
+	case k < 10: // stuffed plaintext in the same segment as the SSLRequest
+		c.In = append(c.In, stuffing...)
+	case k < 11: // plaintext instead of a ClientHello, arriving after the 'S'
+		c.In = append(c.In, stuffing...)
+		c.Cuts = []int{len(sslRequestPacket)}
+		c.Extra["nohs"] = "1"
+		tin = nil
+	case k < 12: // CancelRequest inside TLS
+		tin = append(be32(16), be32(80877102)...)
+		tin = append(tin, be32(uint32(r.Intn(4000000)))...) // process id
+		tin = append(tin, randBytes(r, 4, false)...)        // secret key
+		tin = append(tin, randBytes(r, r.Intn(6), false)...)
+	case k < 13: // a second SSLRequest inside TLS
+		tin = append(append([]byte(nil), sslRequestPacket...), tin...)
+	case k < 14: // the SSLRequest arrives byte by byte
+		for i := 1; i < len(sslRequestPacket); i++ {
+			c.Cuts = append(c.Cuts, i)
+		}
+	case k < 15: // truncated session, client closes its side of the TLS session
+		tin = tin[:r.Intn(len(tin)+1)]
+		c.EOF = true
+	default: // nothing inside TLS at all
+		tin = nil
+	}
+	c.TIn = tin
+	if r.Intn(10) == 0 && !c.EOF {
+		c.EOF = true
+	}
+	if r.Intn(8) == 0 && c.Extra["nohs"] != "1" {
+		// no certificates (no TLS configuration at all, or an empty one): 'N', and the same
+		// connection goes on in plaintext with a fresh startup packet
+		c.TLS = r.Intn(2)
+		delete(c.Extra, "tlsrun")
+		delete(c.Extra, "tlsver")
+		c.In = append(append([]byte(nil), sslRequestPacket...), tin...)
+		c.TIn = nil
+		c.Cuts = randCuts(r, len(c.In))
+	}
+	return c
+}
+
+func init() { generators["tls"] = genTLS }
